@@ -68,7 +68,8 @@ int vorbis_synthesis_headerin(vorbis_info *vi,vorbis_comment *vc,ogg_packet *op)
   int r=ND_int(); if(r){ ASSUME(r==OV_ENOTVORBIS||r==OV_EBADHEADER||r==OV_EFAULT||r==OV_EVERSION); return r; }
   vi->rate=ND_range(1,1L<<31); vi->channels=ND_irange(1,255);
   if(!vc->vendor)vc->vendor=malloc(1); return 0; }
-int vorbis_synthesis_init(vorbis_dsp_state *v,vorbis_info *vi){ if(ND_BOOL()) return 1; env_dsp_live++; v->vi=vi; return 0; }
+static vorbis_info *env_init_vi=0;  /* ghost: info the decoder was last initialised with */
+int vorbis_synthesis_init(vorbis_dsp_state *v,vorbis_info *vi){ if(ND_BOOL()) return 1; env_dsp_live++; env_init_vi=vi; v->vi=vi; return 0; }
 int vorbis_block_init(vorbis_dsp_state *v,vorbis_block *vb){ env_blk_live++; return 0; }
 int vorbis_block_clear(vorbis_block *vb){ env_blk_live=0; memset(vb,0,sizeof *vb); return 0; }
 void vorbis_dsp_clear(vorbis_dsp_state *v){ env_dsp_live=0; memset(v,0,sizeof *v); }
